@@ -1,4 +1,5 @@
 import BSModel.Proofs.HeapContig
+import BSModel.Proofs.HeapEffects
 import BSModel.Proofs.HeapExtract
 import BSModel.Proofs.HeapLink
 /-! # C02 — each editing call has exactly its documented effect on tree shape
@@ -53,6 +54,21 @@ theorem no_two_places {h : Heap} (hg : Good h) :
   have h1 := hwf.kid_parent n k hn
   have h2 := hwf.kid_parent m k hm
   rw [h1] at h2; cases h2; rfl
+
+/-- **clear()**: every child comes back detached (parentless), the tag is left childless, and no other children
+    list and no other parent field changes -/
+theorem clear_effect {h h' : Heap} {t : Nat} (hg : Good h) (hc : clear h t = .ok h') :
+    Good h' ∧ h'.kids t = [] ∧ (∀ n, n ≠ t → h'.kids n = h.kids n) ∧
+    (∀ n, h'.parent n = if n ∈ h.kids t then none else h.parent n) :=
+  BS.Heap.clear_effect hg hc
+
+/-- **replace_with(y)** (one element that is not a sibling of `x`): `y` takes exactly `x`'s place among its
+    siblings, `x` comes back detached, `y` disappears from wherever it was before, nothing else moves -/
+theorem replace_with_one_effect {h h' : Heap} {x y p : Nat} (hg : Good2 h) (hp : h.parent x = some p)
+    (hy : h.kind y ≠ .soup) (hxy : y ≠ x) (hyp : y ∉ h.kids p) (hr : replaceWith h x [.node y] = .ok h') :
+    Good2 h' ∧ h'.kids p = (h.kids p).map (fun k => if k = x then y else k) ∧
+    (∀ n, n ≠ p → h'.kids n = ((h.kids n).erase x).erase y) ∧ h'.parent x = none ∧ h'.parent y = some p :=
+  replaceWith_one_effect hg hp hy hxy hyp hr
 
 /-! ### witness: the slot arithmetic before the repair breaks contiguity
 
